@@ -1246,6 +1246,18 @@ def run(ck):
         os.environ.setdefault('C01_BUDGET_S', '1500')
         os.environ.setdefault('C01_MAX_CASES', '2304')      # what a quick run gets through (seed 1: ~2300 cases)
     if c01_gadgets is not None:
+        if not cov_mode:
+            # round 8: the bounds every PropagateResult overload of constr_prop_down.h hands down, translated to executable Lean from the
+            # tree under test; MpVerif/C01/PropsPropBounds.lean proves them equal to the propagation rule of the reference converter
+            pb = ('MpVerif.C01.PropsPropBounds', 'MpVerif/C01/PropsPropBounds.lean', 9)
+            if pb not in c01_gadgets.EXTRA_MODULES:
+                c01_gadgets.EXTRA_MODULES.insert(len(c01_gadgets.EXTRA_MODULES) - 1, pb)
+            r = subprocess.run([sys.executable, os.path.join(VERIF, 'translators', 'gen_propbounds.py'), REPO,
+                                os.path.join(LEAN, 'MpVerif', 'Gen', 'C01PropBounds.lean')], capture_output=True, text=True, timeout=300)
+            ck.log((r.stdout.strip() or r.stderr.strip())[-300:])
+            if r.returncode != 0:
+                ck.add_violation('obligation:C01_gen_propbounds', 'translators/gen_propbounds.py could not translate the bounds passed by '
+                                 'PropagateResult in include/mp/flat/constr_prop_down.h: %s' % (r.stdout + r.stderr)[-400:], {}, found_input=False)
         res = c01_gadgets.run_gadgets(ck, proof=not cov_mode)
         if hasattr(c01_gadgets, 'report'):
             c01_gadgets.report(ck, res)
